@@ -66,7 +66,7 @@ class Scope:
         self.in_except = 0
         self.in_finally = 0
         self.in_class_body = kind == 'class'
-        self.self_name = None
+        self.pending = []             # names bound by := inside the statement being generated (readable after it)
 
     def func_scope(self):
         s = self
@@ -271,7 +271,7 @@ class ModuleGen:
             tgt = self.walrus_target(sc)
             if tgt:
                 val = self.expr(sc, kind, depth + 1)
-                self.bind(sc, tgt, 'any', walrus=True)
+                sc.pending.append(tgt)
                 return ast.NamedExpr(target=Name(tgt, _S), value=val)
         if form == 'boolop':
             return ast.BoolOp(op=self.pick((ast.And(), ast.Or())),
@@ -305,8 +305,18 @@ class ModuleGen:
             return None
         return self.new_local(sc, 'v')
 
-    def bind(self, sc, name, kind, walrus=False):
+    def bind(self, sc, name, kind):
         sc.assigned[name] = kind
+
+    def mark(self, sc):
+        fs = sc if sc.kind in ('function', 'module') else None
+        return (fs, len(fs.pending)) if fs is not None else (None, 0)
+
+    def discard(self, m):
+        """forget the := bindings made by an expression that is being thrown away"""
+        fs, n = m
+        if fs is not None:
+            del fs.pending[n:]
 
     def e_int(self, sc, depth):
         r = self.r
@@ -433,8 +443,10 @@ class ModuleGen:
             if self.chance(.45):
                 parts.append(Const(self.pick(['', ' ', 'x=', ': ', '{{', '}}', 'é', '\n', 'v', '%', "'", '"'])))
             else:
+                mk = self.mark(sc)
                 val = self.expr(sc, self.pick(('int', 'str', 'float', 'any', 'obj')), depth + 1)
                 if isinstance(val, (ast.Yield, ast.YieldFrom, ast.Await, ast.NamedExpr, ast.Lambda)):
+                    self.discard(mk)
                     val = self.atom(sc, 'any')
                 conv = self.weighted([(-1, 5), (ord('r'), 1.5), (ord('s'), 1), (ord('a'), .7)])
                 spec = None
@@ -663,10 +675,13 @@ class ModuleGen:
             return ast.Call(func=Name(self.pick(self.classes)), args=args, keywords=kws)
         if f == 'exc':
             return ast.Call(func=Name(self.pick(EXC_NAMES)), args=[self.expr(sc, 'str', depth + 1)], keywords=[])
+        mk = self.mark(sc)
         fn = self.expr(sc, 'obj', depth + 1)
         if isinstance(fn, (ast.Constant, ast.Lambda, ast.GeneratorExp, ast.Yield, ast.YieldFrom, ast.Await)):
-            fn = ast.Attribute(value=fn if not isinstance(fn, (ast.Yield, ast.YieldFrom, ast.Await, ast.GeneratorExp, ast.Lambda)) else Const(''),
-                               attr=self.pick(ATTRS), ctx=_L)
+            if not isinstance(fn, ast.Constant):
+                self.discard(mk)
+                fn = Const('')
+            fn = ast.Attribute(value=fn, attr=self.pick(ATTRS), ctx=_L)
         args, kws = self.call_args(sc, depth, kwnames=[self.pick(ATTRS[:6])] if self.chance(.3) else ())
         return ast.Call(func=fn, args=args, keywords=kws)
 
@@ -860,7 +875,12 @@ class ModuleGen:
              ('asyncfor', 0 if deep or not (in_func and sc.is_async) else 1), ('asyncwith', 0 if deep or not (in_func and sc.is_async) else 1),
              ('trystar', 0 if deep or not self.py312 else .3)]
         kind = self.weighted(w)
-        return getattr(self, 's_' + kind)(sc, depth)
+        st = getattr(self, 's_' + kind)(sc, depth)
+        if sc.kind in ('function', 'module') and sc.pending:
+            for n in sc.pending:
+                sc.assigned.setdefault(n, 'any')
+            del sc.pending[:]
+        return st
 
     def s_pass(self, sc, depth):
         return ast.Pass()
@@ -881,32 +901,43 @@ class ModuleGen:
         r = self.r
         kind = self.weighted([('int', 4), ('str', 3), ('list', 2), ('dict', 1.5), ('float', 1), ('tuple', 1), ('set', .5),
                               ('bool', 1), ('none', .5), ('bytes', .5), ('obj', 2)])
-        value = self.expr(sc, kind, 0)
         vk = kind if kind != 'obj' else 'any'
         ntargets = 1 + (r.randrange(8) == 0)
         targets, bound = [], []
-        for _ in range(ntargets):
-            t, b = self.target(sc, 0, kind=vk)
-            if isinstance(t, (ast.Tuple, ast.List)):
-                # unpacking: the value must be iterable; use a display of matching length (or with a star anywhere)
-                n = len(t.elts)
-                has_star = any(isinstance(e, ast.Starred) for e in t.elts)
-                if self.profile == 'hostile' and self.chance(.3):
-                    self.features.add('unpack-size-mismatch')
-                    value = ast.Tuple(elts=[self.expr(sc, 'any', 2) for _ in range(max(0, n - 2 if has_star else n + self.pick((-1, 1))))], ctx=_L)
-                elif self.chance(.7):
-                    cnt = n + (r.randrange(3) if has_star else 0) - (1 if has_star and self.chance(.3) else 0)
-                    elts = [self.expr(sc, 'any', 2) for _ in range(max(cnt, n - 1 if has_star else n))]
-                    if has_star and self.chance(.3):
-                        # starred display on the right of a starred unpacking
-                        elts.insert(r.randrange(len(elts) + 1), ast.Starred(value=self.expr(sc, 'list', 2), ctx=_L))
-                    value = (ast.Tuple if self.chance(.6) else ast.List)(elts=elts, ctx=_L)
-                else:
-                    value = self.expr(sc, self.pick(('obj', 'list')), 1)
-                    if isinstance(value, (ast.List, ast.Tuple)):
-                        value = self.atom(sc, 'obj')
+        for i in range(ntargets):
+            # a chain "a = b = value" shares one value: only single targets there
+            t, b = self.target(sc, 0 if ntargets == 1 else 2, kind=vk)
             targets.append(t)
             bound += b
+        t = targets[0]
+        if isinstance(t, (ast.Tuple, ast.List)):
+            # unpacking: a display of matching length (any length >= n-1 with a star), or an opaque iterable
+            n = len(t.elts)
+            has_star = any(isinstance(e, ast.Starred) for e in t.elts)
+            if self.profile == 'hostile' and self.chance(.3):
+                self.features.add('unpack-size-mismatch')
+                cnt = max(0, n - 2) if has_star else max(0, n + self.pick((-1, 1)))
+                value = ast.Tuple(elts=[self.expr(sc, 'any', 2) for _ in range(cnt)], ctx=_L)
+            elif self.chance(.7):
+                cnt = n if not has_star else n - 1 + r.randrange(4)
+                elts = []
+                for i in range(cnt):
+                    te = t.elts[i] if (not has_star and i < n) else None
+                    if te is not None and isinstance(te, (ast.Tuple, ast.List)):
+                        elts.append(self.atom(sc, 'obj'))      # nested unpacking of an opaque value
+                    elif has_star:
+                        elts.append(self.atom(sc, 'obj') if any(isinstance(e, (ast.Tuple, ast.List)) for e in t.elts)
+                                    else self.expr(sc, 'any', 2))
+                    else:
+                        elts.append(self.expr(sc, 'any', 2))
+                if has_star and self.chance(.3):
+                    # starred display on the right of a starred unpacking
+                    elts.insert(r.randrange(len(elts) + 1), ast.Starred(value=self.expr(sc, 'list', 2), ctx=_L))
+                value = (ast.Tuple if self.chance(.6) else ast.List)(elts=elts, ctx=_L)
+            else:
+                value = self.atom(sc, 'obj') if self.chance(.5) else self.call(sc, 1)
+        else:
+            value = self.expr(sc, kind, 0)
         for n, k in bound:
             self.bind(sc, n, k)
         return ast.Assign(targets=targets, value=value, lineno=0)
@@ -937,19 +968,17 @@ class ModuleGen:
         return ast.AugAssign(target=tgt, op=op, value=val)
 
     def s_annassign(self, sc, depth):
-        n = self.new_local(sc)
         value = self.expr(sc, 'any', 1) if self.chance(.7) else None
-        if value is not None:
-            self.bind(sc, n, 'any')
-        simple = 1
-        tgt = Name(n, _S)
         if self.chance(.2):
             base, _ = self.read_name(sc, ('any',))
             if base is not None:
-                tgt, simple = ast.Attribute(value=base, attr=self.pick(ATTRS), ctx=_S), 0
-                if value is not None:
-                    sc.assigned.pop(n, None)
-        return ast.AnnAssign(target=tgt, annotation=self.annotation(sc), value=value, simple=simple)
+                return ast.AnnAssign(target=ast.Attribute(value=base, attr=self.pick(ATTRS), ctx=_S),
+                                     annotation=self.annotation(sc), value=value, simple=0)
+        n = self.new_local(sc)
+        node = ast.AnnAssign(target=Name(n, _S), annotation=self.annotation(sc), value=value, simple=1)
+        if value is not None:
+            self.bind(sc, n, 'any')
+        return node
 
     def s_delete(self, sc, depth):
         f = self.weighted([('temp', 3 if sc.kind in ('function', 'module') else 0), ('attr', 1.5), ('sub', 2)])
